@@ -791,6 +791,10 @@ def fs_scripts(seed, n):
         "shape0 failw:a:0;set:a+,b+:N;poke", "shapes failw:a:s;set:a+,b+:N;poke", "shape1 failw:a:1;set:a+,b+:N;poke",
         "shapes1 failw:a:s1;set:a+,b-:N;poke", "shape2 failw:a:2;failw:b:1;set:a+,b+,c+:N;okw:a;poke;set:a+,b+,c+,d-:P;poke",
         "shapeu set:a+,b+:N;failu:a:1;set:b+:N;poke", "shapeu2 set:a+,b+:N;failu:a:2;failu:b:s;set::N;poke",
+        "konly set:a+:N;hookk:b:P;set:a+,b+:N;poke", "konly2 set:a+,b-:N;kind:P;poke;kind:N;kind:P;poke", "konly3 hookk:a:P;set:a+:N;poke;hookk:a:N;set:a-:P;poke",
+        # … and nothing after it: no later notification heals a kind change that was lost
+        "konly4 set:a+:N;hookk:b:P;set:a+,b+:N", "konly5 hookk:a:P;set:a+,b-:N", "konly6 set:a+:P;failw:b;hookk:b:N;set:a+,b+:P",
+        "nest set:a+,a.x-:N;set:a.x-:N;set:a+,a.x+,a.x.y-:P;poke", "nest2 set:a.x.y+:N;set:a+,a.x.y+:N;set:a+:N;poke",
     ]
     out = [f"f{i}_{l}" for i, l in enumerate(fixed)]
     # bounded-exhaustive: every sequence of up to 3 path-set changes over a universe of 2 paths x 2 modes (incl. empty)
@@ -802,6 +806,8 @@ def fs_scripts(seed, n):
                 out.append(f"x{i} set:{s1}:N;set:{s2}:{k2};poke"); i += 1
     for j in range(n):
         flips = r.random() < 0.4
+        # a third of the scripts: NESTED paths — a watched directory inside another watched (recursive or not) directory is a path of its own
+        names = ["a", "b", "a.x", "a.x.y", "b.z"] if j % 3 == 2 else "abcd"
         flag = {x: r.choice("++-") for x in names}
         def paths():
             k = r.choice([0, 1, 1, 2, 2, 3])
@@ -809,13 +815,17 @@ def fs_scripts(seed, n):
         ops = []
         for _ in range(r.randint(1, 7)):
             k = r.random()
-            if k < 0.12: ops.append(f"hook:{r.choice(names)}:{paths()}:{r.choice('NNP')}")
+            if k < 0.09: ops.append(f"hook:{r.choice(names)}:{paths()}:{r.choice('NNP')}")
+            # ONE setter alone: Config::file_watcher from inside a watch / unwatch call, or while the worker is parked
+            elif k < 0.12: ops.append(f"hookk:{r.choice(names)}:{r.choice('NP')}")
+            elif k < 0.14: ops.append(f"kind:{r.choice('NP')}")
             elif k < 0.2: ops.append(f"failw:{r.choice(names)}" + r.choice(["", "", ":0", ":s", ":1", ":1", ":s1", ":2"]))
             elif k < 0.25: ops.append(f"okw:{r.choice(names)}")
             elif k < 0.3 and not flips: ops.append(f"failu:{r.choice(names)}" + r.choice(["", ":s", ":1", ":2"]))
             elif k < 0.4: ops.append("poke")
             else: ops.append(f"set:{paths()}:{r.choice('NNNP')}")
-        ops.append("poke")
+        # (a quarter of the scripts end without the extra notification: what the last change left behind is final)
+        if j % 4 != 1 or ops[-1].split(":")[0] not in ("set", "poke", "kind"): ops.append("poke")
         out.append(f"w{seed}_{j} {';'.join(ops)}")
     return out
 
@@ -830,12 +840,15 @@ def fs_oracle(script, trace, conf):
         if p[0] == "failw": failing.add(p[1]); everfail = True
         elif p[0] == "okw": failing.discard(p[1])
         elif p[0] == "failu": everfail = True
-    paths, kind = conf.split("|")
+    paths, kind, livekind = (conf.split("|") + [""])[:3]
     want = sorted(x for x in paths.split(",") if x)
     last = trace.split(";")[-1]
     live = last.split("/")[-1]
     got = [] if live in ("none", "empty") else sorted(live.split(","))
     if not want and live != "none": return "configured set is empty but the watcher was not released" + (" (after an injected registration failure)" if everfail else "")
+    # "… with the configured recursion mode and watcher KIND": the active watcher is the one created last
+    if want and live != "none" and livekind not in ("", "none", kind):
+        return f"the configured watcher kind is {kind} but the active watcher is of kind {livekind} once changes stopped"
     if everfail:
         # C13 / C15 with injected faults: "a path that fails to register is reported (once per attempt) without preventing the others".
         # (1) paths never named by a fault behave as in a fault-free run; (2) in a segment without unwatch calls the number of errors
@@ -858,10 +871,11 @@ def fs_oracle(script, trace, conf):
         for o in ops:
             p = o.split(":")
             # one runtime error per path the back-end's error names; one (for the configured path) when it names none
-            if p[0] in ("failw", "failu"): worth[p[1]] = 2 if len(p) > 2 and p[2] in ("s1", "2") else 1
+            # (`failw:x` without a shape resets x's shape, `failu:x` without one keeps it — as the harness and the model do)
+            if p[0] == "failw" or (p[0] == "failu" and len(p) > 2): worth[p[1]] = 2 if len(p) > 2 and p[2] in ("s1", "2") else 1
             if p[0] == "failw": failing.add(p[1])
             elif p[0] == "okw": failing.discard(p[1])
-            if p[0] not in ("set", "poke") or si >= len(segs): continue     # only these two produce a trace segment
+            if p[0] not in ("set", "poke", "kind") or si >= len(segs): continue     # only these three produce a trace segment
             seg = segs[si]; si += 1
             f = seg.split("/")
             if len(f) != 3 or not f[1].startswith("e"): continue
